@@ -518,10 +518,7 @@ def step_body(par, lay, pid, L, p):
             inv.append(z3.ULE(tot, z3.ZeroExt(2, off2.t)))
             A.require("both", z3.And(*inv), "brace-invariant", "the invariant of the template brace stack is not re-established", token=nm, depth=d2)
             out.seen("brace-stack-depth-%d-after" % d2)
-            d0 = conc_or_none(sel.t) if dmax else 0
-            m0 = ctx.last_model
-            if dmax and m0 is not None:
-                out.seen("brace-stack-depth-%d-before" % m0.eval(sel.t, model_completion=True).as_long())
+            out.seen("brace-stack-depth-%d-before" % (getattr(ctx, "_text_memo", {}).get("lazy-shape", 0) if dmax else 0))
             o2 = off2.conc()
             if o2 is not None:
                 out.seen("brace-stack-touched")
